@@ -33,14 +33,19 @@ type AIOp struct {
 }
 
 type AIBody struct {
-	NSess      int    `json:"nsess"`
-	Autocommit []bool `json:"autocommit"`
+	NSess      int      `json:"nsess"`
+	Autocommit []bool   `json:"autocommit"`
 	Start      []string `json:"start"` // starting branch per session
-	Ops        []AIOp `json:"ops"`
+	Ops        []AIOp   `json:"ops"`
+	Race       *AIRace  `json:"race,omitempty"` // concurrent inserters under the S1 scheduler (autoinc_race.go)
 }
 
 func (AI) Generate(seed uint64, tier string) *core.Scenario {
 	r := core.NewRand(seed)
+	if r.Chance(1, 4) {
+		raw, _ := json.Marshal(AIBody{Race: genAIRace(r)})
+		return &core.Scenario{Property: "C28", Harness: "C28", Seed: seed, Tier: tier, Body: raw}
+	}
 	b := AIBody{NSess: r.Range(2, 4)}
 	brs := []string{"main", "b1"}
 	for i := 0; i < b.NSess; i++ {
@@ -128,6 +133,11 @@ func (AI) Execute(t *testing.T, sc *core.Scenario) *core.Result {
 			res.Panic = "setup: " + err.Error()
 			return res
 		}
+	}
+	if b.Race != nil {
+		setup.End()
+		runAIRace(ctx, w, b.Race, res)
+		return res
 	}
 	var ss []*Sess
 	cur := append([]string(nil), b.Start...) // branch per session
@@ -332,6 +342,32 @@ func (AI) Shrinks(sc *core.Scenario) []*core.Scenario {
 		return nil
 	}
 	var out []*core.Scenario
+	if b.Race != nil {
+		rc := b.Race
+		for w := len(rc.Sched) / 2; w >= 1; w /= 2 {
+			for i := 0; i+w <= len(rc.Sched); i += w {
+				ns := append([]int(nil), rc.Sched...)
+				changed := false
+				for k := i; k < i+w; k++ {
+					if ns[k] != 0 {
+						ns[k], changed = 0, true
+					}
+				}
+				if changed {
+					r2 := *rc
+					r2.Sched = ns
+					raw, _ := json.Marshal(AIBody{Race: &r2})
+					c := *sc
+					c.Body = raw
+					out = append(out, &c)
+				}
+			}
+			if len(out) > 60 {
+				break
+			}
+		}
+		return out
+	}
 	n := len(b.Ops)
 	for w := n / 2; w >= 1; w /= 2 {
 		for i := 0; i+w <= n; i += w {
